@@ -20,6 +20,9 @@ class V: pass
 class VObj(V):
     t: object
 @dataclass(frozen=True)
+class VEnum(VObj):     # enumerate(src): still an opaque object, but a for loop over it knows its source
+    src: object = None
+@dataclass(frozen=True)
 class VInt(V):
     t: object
 @dataclass(frozen=True)
@@ -121,7 +124,7 @@ class Exec:
         self.uni = uni; self.scope = dict(scope or {}); self.obls = []; self.name = name
         self.prune = prune; self.call_model = call_model or {}; self._solver = None; self.npaths = 0
         self.inline_repo_funcs = inline_repo_funcs; self.assumptions = set(); self.dropped = set()
-        self._axioms = None; self.nprune = 0; self.raised = []; self.fstr_eval_calls = False; self.on_yield = None; self.yield_resume = None; self.loop_contracts = {}; self.loop_index = {}; self.fields_mode = False; self.method_names = {'values', 'items', 'keys', 'get'}; self.ghost_unhashable = False
+        self._axioms = None; self.nprune = 0; self.raised = []; self.fstr_eval_calls = False; self.on_yield = None; self.yield_resume = None; self.loop_contracts = {}; self.loop_index = {}; self.fields_mode = False; self.method_names = {'values', 'items', 'keys', 'get'}; self.ghost_unhashable = False; self.quantify_allany = False
     # ------------------------------------------------------------ helpers
     def obl(self, st, kind, goal, where=''):
         self.obls.append(Obl(f'{self.name}.{kind}.{len(self.obls)}', kind, st.pc, goal, where))
@@ -381,12 +384,13 @@ class Exec:
             ok = z3.And(M.inst(bt, self.uni.const(cabc.Sequence)), -ln <= it, it < ln)
             self.obl(s, 'defined.index', ok, where); s = s.assume(ok)
             s = s.read().eff('getitem_int', bt, it)
-            return [(s, VObj(M.item(bt, z3.If(it >= 0, it, it + ln) if not z3.is_int_value(z3.simplify(it)) or z3.simplify(it).as_long() < 0 else it)))]
+            res = M.item(bt, z3.If(it >= 0, it, it + ln) if not z3.is_int_value(z3.simplify(it)) or z3.simplify(it).as_long() < 0 else it)
+            return [(s.ev('read', 'item', bt, res, it), VObj(res))]
         kt = self.obj(i)
         ok = z3.And(M.inst(bt, self.uni.const(cabc.Mapping)), M.mem(bt, kt))
         self.obl(s, 'defined.key', ok, where); s = s.assume(ok)
         s = s.read().eff('getitem_key', bt, kt)
-        return [(s, VObj(M.mget(bt, kt)))]
+        return [(s.ev('read', 'value', bt, M.mget(bt, kt), kt), VObj(M.mget(bt, kt)))]
     def e_Attribute(self, n, st):
         outs = []
         for s, b in self.eval(n.value, st):
@@ -515,7 +519,7 @@ class Exec:
                 except ValueError: pass
         sub = Exec(self.uni, scope, prune=self.prune, call_model=self.call_model, name=self.name + '>' + o.__name__,
                    inline_repo_funcs=self.inline_repo_funcs)
-        sub.obls = self.obls; sub.assumptions = self.assumptions; sub.dropped = self.dropped; sub.raised = self.raised; sub.on_yield = None; sub.fstr_eval_calls = self.fstr_eval_calls; sub.fields_mode = self.fields_mode; sub.method_names = self.method_names; sub.ghost_unhashable = self.ghost_unhashable
+        sub.obls = self.obls; sub.assumptions = self.assumptions; sub.dropped = self.dropped; sub.raised = self.raised; sub.on_yield = None; sub.fstr_eval_calls = self.fstr_eval_calls; sub.fields_mode = self.fields_mode; sub.method_names = self.method_names; sub.ghost_unhashable = self.ghost_unhashable; sub.quantify_allany = self.quantify_allany
         return sub.run_function(node, s, args, kwargs, o)
     def bind_params(self, node, s, args, kwargs, defaults_from=None):
         a = node.args; env = {}
@@ -640,7 +644,7 @@ class Exec:
     def b_enumerate(self, s, args, kw, where):
         src = args[0]
         t = self.obj(src)
-        return [(s.eff('enumerate', t).ev('enumerate', t), VObj(z3.Function('enumerate_of', Obj, Obj)(t)))]
+        return [(s.eff('enumerate', t).ev('enumerate', t), VEnum(z3.Function('enumerate_of', Obj, Obj)(t), t))]
     def b_iter(self, s, args, kw, where):
         (o,) = args
         if isinstance(o, VView): return [(s, VIter(o.src, o.kind))]
@@ -655,8 +659,12 @@ class Exec:
         ok = M.len_(bt) > 0
         self.obl(s, 'defined.next', ok, where); s = s.assume(ok)
         s = s.read().eff('next', bt, it.kind)
-        fn = {'plain': M.first, 'keys': M.first, 'values': M.firstval, 'items': M.firstitem}[it.kind]
-        return [(s, VObj(fn(bt)))]
+        if it.kind == 'items':
+            # the first (key, value) pair of a mapping: the first key and its value (Mapping laws)
+            k0 = M.first(bt)
+            return [(s.ev('read', 'first', bt, k0, None).ev('read', 'value', bt, M.mget(bt, k0), k0), VTup((VObj(k0), VObj(M.mget(bt, k0)))))]
+        fn = {'plain': M.first, 'keys': M.first, 'values': M.firstval}[it.kind]
+        return [(s.ev('read', {'plain': 'first', 'keys': 'first', 'values': 'value'}[it.kind], bt, fn(bt), None), VObj(fn(bt)))]
     def b_getattr(self, s, args, kw, where):
         if len(args) == 3 and isinstance(args[1], VPy) and isinstance(args[1].o, str):
             ot = self.obj(args[0]); nm = self.uni.const(args[1].o)
@@ -701,6 +709,13 @@ class Exec:
                                 else: outs.append((s3.with_env(s.env), VBool(z3.BoolVal(not is_all))))
                     cur = nxt
                 return outs + [(sc.with_env(s.env), VBool(z3.BoolVal(is_all))) for sc in cur]
+        if a is not None and not kw and len(args) == 1 and self.quantify_allany:
+            # symbolic source: the result is DEFINED by a quantified formula over the iteration domain (element expression single-path)
+            it = self.symiter(s, a)
+            t = self.truth(it.elem)
+            q = z3.ForAll([it.var], z3.Implies(it.dom, t)) if is_all else z3.Exists([it.var], z3.And(it.dom, t))
+            R = M.fresh('all' if is_all else 'any', z3.BoolSort())
+            return [(it.st._r(env=s.env).assume(R == q), VBool(R))]
         return self.b_linear(s, args, kw, where)
     def b_all(self, s, args, kw, where): return self.b_allany(s, args, kw, where, True)
     def b_any(self, s, args, kw, where): return self.b_allany(s, args, kw, where, False)
@@ -935,7 +950,7 @@ class Exec:
                         if len(r) != 1: raise Unsupported('context manager argument forks')
                         s2, kv = r[0]; kws[kw.arg] = kv
                     sub = Exec(self.uni, dict(gen.__globals__), prune=self.prune, call_model=self.call_model, name=self.name + '>' + gen.__name__)
-                    for a_ in ('obls', 'assumptions', 'dropped', 'raised', 'fields_mode', 'method_names', 'ghost_unhashable', 'fstr_eval_calls'): setattr(sub, a_, getattr(self, a_))
+                    for a_ in ('obls', 'assumptions', 'dropped', 'raised', 'fields_mode', 'method_names', 'ghost_unhashable', 'fstr_eval_calls', 'quantify_allany'): setattr(sub, a_, getattr(self, a_))
                     genv = sub.bind_params(self.func_ast(gen), s2, args, kws, gen)
                     caller_env = s2.env
                     for k1, g1, v1 in sub.exec_block(pre, s2.with_env(tuple(genv.items()))):
@@ -1031,6 +1046,10 @@ class Exec:
             if len(r2) != 1: raise Unsupported('generator element forks')
             s3, ev = r2[0]
             return SymIter(it.var, it.dom, ev, it.ordered, it.lo, s3._r(env=s.env, pc=tuple(c for c in s3.pc if not c.eq(it.dom))))
+        if isinstance(v, VEnum):
+            bt = v.src; j = M.fresh('j', z3.IntSort())
+            ok = M.inst(bt, self.uni.const(cabc.Sequence)); self.obl(s, 'defined.enumerate_sequence', ok, 'enumerate() in a for loop is modelled for sequences only (index j, item j)'); s = s.assume(ok)
+            return SymIter(j, z3.And(0 <= j, j < M.len_(bt)), VTup((VInt(j), VObj(M.item(bt, j)))), True, z3.IntVal(0), s._r(cost=s.cost + M.len_(bt), effects=s.effects + (('iterate_all', bt, 'for enumerate'),)))
         if isinstance(v, VObj):
             bt = v.t; k = M.fresh('k')
             ok = M.inst(bt, self.uni.const(cabc.Iterable)); self.obl(s, 'defined.iter', ok, 'for loop over an iterable'); s = s.assume(ok)
